@@ -683,6 +683,13 @@ def m_char_to_digit(ex, site, a):
     if radix == 10:
         if ex.branch(cls(c, [(48, 57)])): return some(c - 48)
         return none()
+    if isinstance(radix, int) and 11 <= radix <= 36:
+        k = ex.choose([cls(c, [(48, 57)]), cls(c, [(97, 97 + radix - 11)]), cls(c, [(65, 65 + radix - 11)]),
+                       z3.Not(z3.Or(cls(c, [(48, 57)]), cls(c, [(97, 97 + radix - 11)]), cls(c, [(65, 65 + radix - 11)])))])
+        if k == 0: return some(c - 48)
+        if k == 1: return some(c - 87)
+        if k == 2: return some(c - 55)
+        return none()
     raise Unsupported('to_digit radix')
 
 
